@@ -385,6 +385,39 @@ fn run_c16(ctx: &mut Ctx) {
             }
         }
     }
+    // long vectors: runs ending around every 64-bit boundary
+    for ty in [IDX_BVD, IDX_BV] {
+        for n in gen::long_lens(tier) {
+            if !ctx.mine() {
+                continue;
+            }
+            let mut runs: Vec<usize> = vec![0, 1, n - 1, n];
+            let mut b = 64;
+            while b < n {
+                runs.extend([b - 1, b, b + 1]);
+                b += if tier == Tier::Thorough { 64 } else { 64 * (1 + n / 1000) };
+            }
+            for r in runs {
+                for fillbit in [false, true] {
+                    for from_top in [false, true] {
+                        let mut v: Bits = vec![!fillbit; n];
+                        for i in 0..r.min(n) {
+                            let idx = if from_top { n - 1 - i } else { i };
+                            v[idx] = fillbit;
+                        }
+                        if r < n && r + 1 < n {
+                            // everything beyond the terminating opposite bit: same as the run (worst case for a scan that stops late)
+                            for i in (r + 1)..n {
+                                let idx = if from_top { n - 1 - i } else { i };
+                                v[idx] = fillbit;
+                            }
+                        }
+                        judge(ctx, &Case::new("counts").with("a", Spec::new(ty, v, via_for(ty, &mut rng)).enc()), "W-long-vectors");
+                    }
+                }
+            }
+        }
+    }
     let per = tier.pick(100, 600_000, 6_000_000) / ctx.nworkers + 1;
     let mut rng = Rng::derive(ctx.seed, 0x1617, ctx.worker as u64);
     for _ in 0..per {
